@@ -264,6 +264,7 @@ def base_env():
         if not n.startswith("_") and callable(getattr(math, n)):
             env[n] = getattr(math, n)
     env["ln"] = math.log
+    env["_vm_dict"] = _AttrDict
     env["vmtwice"] = lambda x: x * 2       # twin of the injected C++ function mc.lang.argscope.VMTWICE_MD declares
     env["MetaData"] = lambda src, md: src
     env["ResultTTree"] = lambda src, names, tree, fname: src
@@ -318,12 +319,34 @@ def _vm_mod(a, b):
     return a % b
 
 
+class _AttrDict(dict):
+    "func_adl lets a dictionary built by one Select be read by attribute in the next (d.jets): same thing as d['jets']"
+
+    def __getattr__(self, name):
+        try:
+            return self[name]
+        except KeyError:
+            raise AttributeError(name)
+
+
+class _DictWrap(__import__("ast").NodeTransformer):
+    def visit_Dict(self, n):
+        import ast
+        self.generic_visit(n)
+        return ast.Call(func=ast.Name("_vm_dict", ast.Load()), args=[n], keywords=[])
+
+
 def compile_query(text: str):
     c = _compiled.get(text)
     if c is None:
         import ast
-        if "%" in text or "/" in text:
-            tree = ast.fix_missing_locations(_ModGuard().visit(ast.parse(text, mode="eval")))
+        if "%" in text or "/" in text or "{" in text:
+            tree = ast.parse(text, mode="eval")
+            if "%" in text or "/" in text:
+                tree = _ModGuard().visit(tree)
+            if "{" in text:
+                tree = _DictWrap().visit(tree)
+            tree = ast.fix_missing_locations(tree)
             c = compile(tree, "<query>", "eval")
         else:
             c = compile(text, "<query>", "eval")
